@@ -64,6 +64,11 @@ def gen(args):
     for si, sq in enumerate(seqs):
         # (every third signal is stored as integers: extrema, padding and envelopes are real-valued whatever the input dtype)
         x = np.array(sq, dtype=(np.int64 if si % 3 == 2 else float))
+        # (every fifth signal is expressed in a tiny unit, an exact power of two: extrema are where they were, magnitudes and
+        #  envelopes scale exactly - no absolute tolerance may decide what an extremum is)
+        unit = 2.0 ** -60 if si % 5 == 4 else 1.0
+        if unit != 1.0:
+            x = x.astype(float) * unit
         N = len(x)
         for pw in range(0, 6):
             for parab in (0, 1):
@@ -76,7 +81,7 @@ def gen(args):
                     elif o[0] is None:
                         r = {'none': 1, 'locs': [], 'mags': []}
                     else:
-                        r = {'none': 0, 'locs': fx(o[0], LS), 'mags': fx(o[1], MS)}
+                        r = {'none': 0, 'locs': fx(o[0], LS), 'mags': fx(np.asarray(o[1]) / unit, MS)}
                     r.update(kind='pad', sig=list(sq), pw=pw, mode=mode, parab=parab, mm=mm)
                     recs.append(r)
                 if not do_env or pw == 0:
@@ -99,12 +104,12 @@ def gen(args):
                             else:
                                 env, (l, m) = out
                                 r['n_out'] = int(len(env))
-                                r['locs'] = fx(l, LS); r['mags'] = fx(m, MS)
+                                r['locs'] = fx(l, LS); r['mags'] = fx(np.asarray(m) / unit, MS)
                                 r['grid'] = grid_class(method, env, np.asarray(l, float), np.asarray(m, float), N) if len(env) == N else 'n/a'
                                 if not parab and len(env) == N:
                                     src = {'upper': x, 'lower': -x, 'combined': np.abs(x)}[emode]
                                     pos = [j for j in range(1, N - 1) if src[j] > src[j - 1] and src[j] > src[j + 1]]
-                                    kn = fx(env[pos], MS) if pos else []
+                                    kn = fx(env[pos] / unit, MS) if pos else []
                                     r['knots'] = [[p, v] for p, v in zip(pos, kn)] if kn != [-987654] else [[-1, -1]]
                         except Exception as e:
                             r['none'] = -99; r['err'] = type(e).__name__
